@@ -140,6 +140,7 @@ func (x *Exec) doCall(st *State, fr *Frame, cc *ssa.CallCommon, fv Val, args []V
 		return
 	}
 	if con, ok := x.C.Funcs["functype:"+typeShort(fv.T)]; ok {
+		k = x.wrapHooks(st, fr, "functype:"+typeShort(fv.T), args, pos, k)
 		x.applyContract(st, fr, con, "functype:"+typeShort(fv.T), sig, args, pos, k)
 		return
 	}
@@ -1323,6 +1324,14 @@ func (x *Exec) chanEvent(st *State, fr *Frame, when string, chv ssa.Value, ch Va
 			st.assume(t)
 		}
 		x.applyHookEffects(st, fr, h, extra)
+	}
+	if when == "close" && x.con != nil {
+		// "noclose *": no channel at all is closed on any path of this function, including helpers executed in place
+		for _, nc := range x.con.NoClose {
+			if nc == "*" && len(hs) == 0 {
+				x.oblige(st, "noclose", "*.executed", pos, "false", nil)
+			}
+		}
 	}
 	if len(hs) == 0 {
 		x.assumed[fmt.Sprintf("%s on channel %s has no protocol hook: treated as a no-op", when, desc)] = true
